@@ -158,25 +158,25 @@ def corruption_test(run, prop, src_dir, corrupt_fn, n=8):
 FAM_STRIDE = {  # family: (quick stride, thorough stride); stride 1 = exhaustive
     "EP": (331, 6), "EPEDGE": (1, 1), "ONLYEP": (7, 1), "PIN": (53, 1), "CASTLE": (5, 1),
     "PROMO": (2, 1), "MAT": (61, 2), "CHK": (1999, 37), "AMBIG": (997, 11), "RAW": (1, 1), "MINOR": (23, 1), "MULTICHK": (499, 3), "ROOKCAP": (1, 1), "EPCHK": (997, 9), "STALEMIN": (3, 1), "EPX": (13, 1), "EPCHKX": (41, 1), "PINMATE": (23, 1), "DBLCHK": (1, 1), "DBLPIN": (499, 5),
-    "ONLYDBL": (3, 1), "PROMOEP": (1, 1), "CASTLEEP": (1, 1), "BATTERY": (149, 3), "EDGEPAWN": (1, 1),
+    "ONLYDBL": (3, 1), "PROMOEP": (1, 1), "CASTLEEP": (1, 1), "BATTERY": (149, 3), "EDGEPAWN": (1, 1), "ONLYPROMO": (200, 4), "EPEVADE": (30, 1), "ONLYEPCHK": (20, 2), "ONLYEPCHKPRE": (20, 2),
 }
 FAMS_FOR = {
-    "C01": ["EP", "EPX", "EPEDGE", "ONLYEP", "PIN", "DBLPIN", "CASTLE", "PROMO", "CHK", "MULTICHK", "BATTERY", "EDGEPAWN"],
+    "C01": ["EP", "EPX", "EPEDGE", "ONLYEP", "PIN", "DBLPIN", "CASTLE", "PROMO", "CHK", "MULTICHK", "BATTERY", "EDGEPAWN", "EPEVADE", "ONLYEPCHK"],
     "C03": ["EP", "EPEDGE", "CASTLE", "CASTLEEP", "PROMO", "PROMOEP", "MAT", "ROOKCAP"],
-    "C06": ["EP", "EPEDGE", "PIN", "CASTLE", "PROMO", "CHK", "BATTERY", "EDGEPAWN"],
-    "C07": ["EPX", "ONLYEP", "ONLYDBL", "PINMATE", "PIN", "MAT", "MINOR", "STALEMIN", "CHK", "MULTICHK", "CASTLE"],
+    "C06": ["EP", "EPEDGE", "PIN", "CASTLE", "PROMO", "CHK", "BATTERY", "EDGEPAWN", "EPEVADE"],
+    "C07": ["EPX", "ONLYEP", "ONLYDBL", "ONLYPROMO", "PINMATE", "PIN", "MAT", "MINOR", "STALEMIN", "CHK", "MULTICHK", "CASTLE", "EPEVADE", "ONLYEPCHK"],
     "C16": ["PIN", "CHK", "CASTLE", "MULTICHK", "EP", "BATTERY", "EDGEPAWN"],
     "C04": ["EP", "CASTLE", "CASTLEEP", "PROMO", "PROMOEP", "ROOKCAP"],
     "C05": ["EP", "CASTLE", "CASTLEEP", "PROMO", "PROMOEP", "ROOKCAP"],
-    "C09": ["AMBIG", "PIN", "DBLPIN", "PROMO", "EPX", "EPEDGE", "EPCHKX", "DBLCHK", "MULTICHK", "CASTLE"],
-    "C10": ["EPX", "EPEDGE", "CASTLE", "PROMO", "BATTERY"],
+    "C09": ["AMBIG", "PIN", "DBLPIN", "PROMO", "EPX", "EPEDGE", "EPCHKX", "DBLCHK", "MULTICHK", "CASTLE", "EPEVADE", "ONLYEPCHKPRE"],
+    "C10": ["EPX", "EPEDGE", "CASTLE", "PROMO", "BATTERY", "EPEVADE"],
     "C11": ["RAW", "EPEDGE", "CASTLE"],
     "C18": ["EP", "ONLYEP", "CASTLE", "ROOKCAP", "MAT", "MINOR", "PIN", "CHK", "EDGEPAWN"],
-    "C14": ["STALEMIN", "MINOR", "MAT", "ONLYDBL", "PINMATE"],
+    "C14": ["STALEMIN", "MINOR", "MAT", "ONLYDBL", "PINMATE", "ONLYPROMO"],
     "C17": ["PROMO", "AMBIG", "CASTLE"],
     "C19": ["CHK", "AMBIG", "MULTICHK", "EPEDGE"],
-    "C02": ["EPX", "EPEDGE", "ONLYEP", "PROMO", "ROOKCAP", "CASTLE", "PIN"],
-    "C13": ["EPX", "PROMO", "ROOKCAP", "CASTLE", "PIN"],
+    "C02": ["EPX", "EPEDGE", "ONLYEP", "PROMO", "ROOKCAP", "CASTLE", "PIN", "EPEVADE"],
+    "C13": ["EPX", "PROMO", "ROOKCAP", "CASTLE", "PIN", "EPEVADE"],
 }
 # families whose positions are expensive per event (SAN: ~150 texts, UCI: 20 481 strings): thinner samples
 FAM_MULT = {"C04": 5, "C05": 5, "C09": 5, "C10": 4, "C18": 3, "C02": 8, "C13": 8, "C14": 4, "C17": 8}
@@ -187,12 +187,12 @@ FAM_STRIDE_FOR = {
     "C01": {"MULTICHK": (2500, 40)},
     "C07": {"MULTICHK": (2500, 40)},
     "C19": {"MULTICHK": (1500, 20)},
-    "C09": {"DBLCHK": (2, 1), "MULTICHK": (2500, 40)},
-    "C14": {"ONLYDBL": (12, 1), "PINMATE": (120, 4)},
+    "C09": {"ONLYEPCHKPRE": (20, 2), "EPEVADE": (300, 10), "DBLCHK": (2, 1), "MULTICHK": (2500, 40)},
+    "C14": {"ONLYDBL": (12, 1), "PINMATE": (120, 4), "ONLYPROMO": (800, 16)},
     "C04": {"CASTLE": (80, 4), "CASTLEEP": (1, 1), "PROMOEP": (3, 1)},
     "C05": {"CASTLE": (80, 4), "CASTLEEP": (1, 1), "PROMOEP": (3, 1)},
-    "C02": {"EPX": (60, 8), "EPEDGE": (6, 2), "ONLYEP": (60, 8), "PROMO": (20, 2), "ROOKCAP": (4, 1), "CASTLE": (300, 30), "PIN": (2000, 200)},
-    "C13": {"EPX": (80, 8), "PROMO": (25, 2), "ROOKCAP": (4, 1), "CASTLE": (400, 30), "PIN": (3000, 200)},
+    "C02": {"EPEVADE": (600, 40), "EPX": (60, 8), "EPEDGE": (6, 2), "ONLYEP": (60, 8), "PROMO": (20, 2), "ROOKCAP": (4, 1), "CASTLE": (300, 30), "PIN": (2000, 200)},
+    "C13": {"EPEVADE": (800, 40), "EPX": (80, 8), "PROMO": (25, 2), "ROOKCAP": (4, 1), "CASTLE": (400, 30), "PIN": (3000, 200)},
 }
 
 
@@ -210,29 +210,31 @@ def mc_notation(run, tier):
                                 "Inv_UciRoundTrip", "Inv_FenRoundTrip", "Inv_Valid"]}
 
 
-def mc_famimpl(run, tier, seed, fams):
+def mc_famimpl(run, tier, seed, fams, module="MC_FamImpl", mult=(4, 3), what=None):
     """Engine MC: refinement obligations (prefilter/pin logic, generator, has_legal_moves, make/unmake with
-    incremental hash and sets) on the structured families, at the design level."""
+    incremental hash and sets; with module=MC_SanImpl: the SAN writer/reader) on the structured families, at
+    the design level."""
     qi = 0 if tier == "quick" else 1
     t0 = time.time()
     def one(f):
-        stride = FAM_STRIDE[f][qi] * (4 if qi == 0 else 3)
-        r = run_tlc("MC_FamImpl", "MC_FamImpl.cfg", env={"FAM_" + f: 1, "STRIDE": stride, "SEED": seed, "EPFIX": 1},
-                    workers=max(2, NCPU // len(fams)), xmx="4g", timeout=3400, tag=f"famimpl-{run.prop}-{f}", gc_threads=2)
+        stride = FAM_STRIDE[f][qi] * mult[qi]
+        r = run_tlc(module, module + ".cfg", env={"FAM_" + f: 1, "STRIDE": stride, "SEED": seed, "EPFIX": 1},
+                    workers=max(2, NCPU // len(fams)), xmx="4g", timeout=3400, tag=f"{module}-{run.prop}-{f}", gc_threads=2)
         return f, stride, r
     info = {}
     with ThreadPoolExecutor(max_workers=len(fams)) as ex:
         for f, stride, r in ex.map(one, fams):
             if "Model checking completed. No error has been found" not in r["out"]:
-                run.tool_error(f"MC_FamImpl({f}): the implementation-shaped layer does not refine the reference layer "
+                run.tool_error(f"{module}({f}): the implementation-shaped layer does not refine the reference layer "
                                f"(to be triaged against the code):\n" + r["out"][-2500:])
                 continue
             run.states += r["distinct"]
             run.transitions += r["generated"]
             info[f] = {"stride": stride, "distinct_states": r["distinct"]}
-    run.extra["mc_famimpl"] = {"families": info, "invariant": "Inv_FamRefines (Obl_Legal, Obl_SemiValidate, Obl_Make, Obl_Undo)",
-                               "wall_s": round(time.time() - t0, 1)}
-    log(f"[mc] MC_FamImpl {info} in {time.time() - t0:.1f}s")
+    run.extra[module.lower()] = {"families": info,
+                                 "invariant": what or "Inv_FamRefines (Obl_Legal, Obl_SemiValidate, Obl_Make, Obl_Undo)",
+                                 "wall_s": round(time.time() - t0, 1)}
+    log(f"[mc] {module} {info} in {time.time() - t0:.1f}s")
 
 
 def enumerate_family(run, fam, stride, seed, workers):
@@ -933,6 +935,10 @@ def plan_generic(prop, tier, seed):
                  cap=GENERIC[prop][2 + qi])
     if prop in ("C08", "C09", "C10"):
         mc_notation(run, tier)
+        if prop == "C09":
+            # the SAN writer/reader as the code does it (SanImpl) against the reference reading, on the families
+            mc_famimpl(run, tier, seed, ["AMBIG", "PIN", "EPX", "PROMO", "CASTLE", "DBLCHK"], module="MC_SanImpl",
+                       mult=(12, 8), what="Inv_SanRefines (Obl_SanWrite, Obl_SanRoundTrip, Obl_SanRead)")
     if prop in ("C13", "C14", "C17"):
         chain_behaviours(run, prop, tier, seed, binary)
         mc_chain(run, tier)
